@@ -352,6 +352,21 @@ type MRow struct {
 	KeyKVs []KV
 	TS     int64 // absolute unix nanos of the period end
 	Pts    []*Point
+	Seqs   []int // acceptance sequence numbers of Pts
+}
+
+// PtsSince returns the points accepted at or after sequence number since.
+func (r *MRow) PtsSince(since int) []*Point {
+	if since <= 0 {
+		return r.Pts
+	}
+	var out []*Point
+	for i, p := range r.Pts {
+		if r.Seqs[i] >= since {
+			out = append(out, p)
+		}
+	}
+	return out
 }
 
 // Model keeps accepted points per table.
@@ -434,6 +449,7 @@ func (mt *MTable) Add(p *Point) {
 		mt.Rows[id] = r
 	}
 	r.Pts = append(r.Pts, p)
+	r.Seqs = append(r.Seqs, len(mt.Accepted))
 	mt.Accepted = append(mt.Accepted, p)
 }
 
@@ -465,7 +481,7 @@ func (mt *MTable) SortedRowIDs() []string {
 // floatClose compares with relative tolerance (values are reassociated by
 // merges).
 func floatClose(a, b float64) bool {
-	if a == b {
+	if a == b || (math.IsNaN(a) && math.IsNaN(b)) {
 		return true
 	}
 	d := math.Abs(a - b)
